@@ -16,11 +16,12 @@ import numpy as np
 
 from mc.core import Outcome
 from mc.oracles import grpI_exact as X
+from mc.oracles import grpI_variants as VR
 
 PROPERTY = "C28"
 LEVEL = "exploration"
 RULE = (
-    "all ordered pairs (s1, s2) of oriented non-degenerate segments with integer endpoints "
+    "[each evaluation = plain call + one transformed/re-represented call] all ordered pairs (s1, s2) of oriented non-degenerate segments with integer endpoints "
     "in the box, both orientations of both segments (second orientation only where stated "
     "in the bound); one case = one unoriented first segment against every second segment; "
     "non-trivial = the two segments' axis-aligned bounding boxes intersect; distinct by "
@@ -34,6 +35,11 @@ ASSUMPTIONS = [
     "a two-column result with coincident columns is accepted as a point",
     "segments_2d is called with Python lists of ints, segments_3d with float ndarrays "
     "(and, on the small box, with int ndarrays as well)",
+    "every evaluation is repeated once in a variant representation, rotating over {translated by 1000, "
+    "scaled by 2^-10, scaled by 2^10, int64} x {C, F order} x {writeable, read-only}; these maps are exact "
+    "in binary floating point, the returned points are mapped back and judged against the same exact "
+    "answer (default tol=1e-8 stays >= 95x below every non-zero quantity the code compares with it)",
+    "purity: the four endpoint arguments must be bitwise unchanged after every call",
 ]
 BOUNDS = {
     "quick": "2-d: endpoints in {0..3}^2, 240 oriented segments, all 57 600 ordered pairs; "
@@ -65,17 +71,6 @@ def cases(tier):
         for k in range(len(_segments(dim, n))):
             out.append({"dim": dim, "n": n, "first": k, "second": second, "how": how})
     return out
-
-
-def _call(dim, how, a, b, c, d):
-    from porepy.geometry import intersections
-
-    if dim == 2:
-        return intersections.segments_2d(list(a), list(b), list(c), list(d))
-    dt = float if how == "float" else np.int64
-    return intersections.segments_3d(
-        np.array(a, dtype=dt), np.array(b, dtype=dt), np.array(c, dtype=dt), np.array(d, dtype=dt)
-    )
 
 
 def _classify_result(res, dim):
@@ -127,9 +122,61 @@ def _projection_parallel(a, b, c, d):
     return u[i] * v[j] - u[j] * v[i] == 0 and not X.is_zero(X.minors(u, v))
 
 
+def _verdict(exact, ex_pts, kind, pts):
+    if kind == "raised":
+        return "raised on valid input"
+    if kind == "malformed":
+        return "malformed result"
+    if exact[0] == "none":
+        return None if kind == "none" else "reports an intersection where there is none"
+    if exact[0] == "point":
+        if kind not in ("point", "point2"):
+            return f"exact answer is one point, function returned {kind}"
+        return None if _close(pts[0], ex_pts[0]) else "wrong intersection point"
+    if kind != "segment":
+        return f"exact answer is a segment, function returned {kind}"
+    if (_close(pts[0], ex_pts[0]) and _close(pts[1], ex_pts[1])) or (_close(pts[0], ex_pts[1]) and _close(pts[1], ex_pts[0])):
+        return None
+    return "wrong overlap segment"
+
+
+def _args(dim, how, a, b, c, d):
+    if dim == 2:
+        return [list(a), list(b), list(c), list(d)]
+    dt = float if how == "float" else np.int64
+    return [np.array(x, dtype=dt) for x in (a, b, c, d)]
+
+
+_VCACHE: dict = {}
+
+
+def _variant_args(k, pts):
+    """Fresh argument arrays of variant k for the given endpoints + their reference bytes."""
+    v = VR.VARIANTS[k]
+    args, ref = [], []
+    for p in pts:
+        m = _VCACHE.get((k, p))
+        if m is None:
+            arr = VR.make(np.array(p), v)
+            m = _VCACHE[(k, p)] = (arr, arr.tobytes())
+        x = m[0].copy()
+        if v[3]:
+            x.flags.writeable = False
+        args.append(x)
+        ref.append(m[1])
+    return args, ref
+
+
+def _fn(dim):
+    from porepy.geometry import intersections
+
+    return intersections.segments_2d if dim == 2 else intersections.segments_3d
+
+
 def run_case(case) -> Outcome:
     out = Outcome()
     dim, n, how = case["dim"], case["n"], case["how"]
+    fn = _fn(dim)
     segs = _segments(dim, n)
     s1 = segs[case["first"]]
     per_cat: dict = {}
@@ -144,48 +191,40 @@ def run_case(case) -> Outcome:
             a, b = (s1[0], s1[1]) if o1 == 0 else (s1[1], s1[0])
             for o2 in orient2:
                 c, d = (s2[0], s2[1]) if o2 == 0 else (s2[1], s2[0])
-                bad = None
-                try:
-                    res = _call(dim, how, a, b, c, d)
-                    kind, pts = _classify_result(res, dim)
-                except Exception as e:  # the functions promise an answer for valid input
-                    kind, pts, res = "raised", [], repr(e)
-                if kind == "raised":
-                    bad = "raised on valid input"
-                elif kind == "malformed":
-                    bad = "malformed result"
-                elif exact[0] == "none":
-                    if kind != "none":
-                        bad = "reports an intersection where there is none"
-                elif exact[0] == "point":
-                    if kind not in ("point", "point2"):
-                        bad = f"exact answer is one point, function returned {kind}"
-                    elif not _close(pts[0], ex_pts[0]):
-                        bad = "wrong intersection point"
-                else:
-                    if kind != "segment":
-                        bad = f"exact answer is a segment, function returned {kind}"
-                    elif not (
-                        (_close(pts[0], ex_pts[0]) and _close(pts[1], ex_pts[1]))
-                        or (_close(pts[0], ex_pts[1]) and _close(pts[1], ex_pts[0]))
-                    ):
-                        bad = "wrong overlap segment"
-                cls = f"{dim}d/{regime}/{exact[0]}" + ("/two-equal-columns" if kind == "point2" else "")
-                if bad is not None:
-                    cls = f"VIOLATION/{dim}d/{regime}/{exact[0]}->{kind}"
-                    cat = (bad, dim == 3 and _projection_parallel(a, b, c, d))
-                    per_cat[cat] = per_cat.get(cat, 0) + 1
-                    if per_cat[cat] <= 2:
-                        out.violate(
-                            f"segments_{dim}d: {bad}",
-                            start_1=list(a), end_1=list(b), start_2=list(c), end_2=list(d),
-                            dtype=how,
-                            expected=[exact[0]] + [[float(x) for x in p] for p in ex_pts],
-                            expected_exact=[[str(x) for x in p] for p in ex_pts],
-                            observed=res if isinstance(res, str) else (None if res is None else np.asarray(res)),
-                            regime=regime,
-                        )
-                out.ev(cls, key)
+                # one call in the plain representation, one in a rotating (transform,
+                # memory order, dtype, read-only) variant; arguments must stay bitwise intact
+                k = (o1 * 2 + o2 + j) % len(VR.VARIANTS)
+                v = VR.VARIANTS[k]
+                calls = [("plain", "id", _args(dim, how, a, b, c, d), None),
+                         (VR.name(v), v[0], *_variant_args(k, (a, b, c, d)))]
+                for vname, tr, args, ref in calls:
+                    if ref is None:
+                        ref = [x.tobytes() if isinstance(x, np.ndarray) else list(x) for x in args]
+                    try:
+                        res = fn(*args)
+                        res_u = res if (res is None or tr == "id") else VR.inv(res, tr)
+                        kind, pts = _classify_result(res_u, dim)
+                    except Exception as e:  # the functions promise an answer for valid input
+                        kind, pts, res = "raised", [], repr(e)
+                    bad = _verdict(exact, ex_pts, kind, pts)
+                    if bad is None and any((x.tobytes() if isinstance(x, np.ndarray) else x) != r for x, r in zip(args, ref)):
+                        bad = "an input argument was modified"
+                    cls = f"{dim}d/{regime}/{exact[0]}" + ("/two-equal-columns" if kind == "point2" else "")
+                    if bad is not None:
+                        cls = f"VIOLATION/{dim}d/{regime}/{exact[0]}->{kind}"
+                        cat = (bad, dim == 3 and _projection_parallel(a, b, c, d))
+                        per_cat[cat] = per_cat.get(cat, 0) + 1
+                        if per_cat[cat] <= 2:
+                            out.violate(
+                                f"segments_{dim}d: {bad}",
+                                start_1=list(a), end_1=list(b), start_2=list(c), end_2=list(d),
+                                dtype=how, variant=vname,
+                                expected=[exact[0]] + [[float(x) for x in p] for p in ex_pts],
+                                expected_exact=[[str(x) for x in p] for p in ex_pts],
+                                observed=res if isinstance(res, str) else (None if res is None else np.asarray(res)),
+                                regime=regime,
+                            )
+                    out.ev(cls if vname == "plain" or bad is not None else "variant/" + vname, key)
         if not out.samples and exact[0] == "point" and regime == "coplanar-nonparallel" and j > case["first"]:
             out.samples.append({"dim": dim, "start_1": list(s1[0]), "end_1": list(s1[1]), "start_2": list(s2[0]),
                                 "end_2": list(s2[1]), "exact": [str(x) for x in ex_pts[0]]})
